@@ -83,6 +83,7 @@ def _env(case, limits: dict):
     cfg["mode"] = "strict"
     cfg["limits"] = limits
     partials = dict(PARTIALS_SRC)
+    partials.update(ENTRY_PARTIALS)
     partials.update({n: gg.to_source(a) for n, a in (case.get("partials") or {}).items()})
     env = envs.make_env(cfg, partials)
     tcls, log = _recording_classes()
@@ -93,7 +94,7 @@ def _env(case, limits: dict):
 def _render(case, limits: dict):
     env, log = _env(case, limits)
     log.update(max=0, assigns=0, in_partial=0, contexts=[])
-    src = gg.to_source(case["main"])
+    src = case["src"] if "src" in case else gg.to_source(case["main"])
     data = gd.decode(case["data"])
     o = oc.render(case, lambda: env.from_string(src), **data)
     for ctx in log["contexts"]:
@@ -113,7 +114,7 @@ def evaluate(case) -> Verdict:
         return v
     text = base[1]
     n = len(text.encode("utf-8"))
-    src = gg.to_source(case["main"])
+    src = case["src"] if "src" in case else gg.to_source(case["main"])
     extra = case.get("extra_limits") or []
     # -- output stream limit
     for lim in sorted({0, 1, max(n - 1, 0), n, n + 1, 2 * n, *[e for e in extra if e <= 2 * n + 2]}):
@@ -148,7 +149,7 @@ def evaluate(case) -> Verdict:
             v.fail(f"namespace:crash:{o[1]}", f"limit {lim}: {oc.short(o)}")
             break
     multibyte = any(ord(c) > 127 for c in text)
-    kinds = gg.kinds(case["main"])
+    kinds = gg.kinds(case["main"]) if "main" in case else {"render", "include", "capture"}
     out_nt = n >= 8 and multibyte and bool(kinds & {"capture", "include", "render", "ifchanged"})
     ns_nt = blog["assigns"] >= 2 and blog["in_partial"] >= 1
     v.nontrivial = out_nt or ns_nt
@@ -210,7 +211,34 @@ def cases(draw):
     return {"cfg": cfg, "main": main, "partials": {"gen": gen}, "data": data, "extra_limits": [r.randint(0, 200), r.randint(0, 2000)]}
 
 
+# the parent holds locals of some size, then a partial that binds locals of its own is entered in every way there is;
+# the peak of the namespace lies inside the partial, so the sweep's "one below the peak" limit has to stop the render there
+ENTRIES = [
+    "{% render 'w' %}", "{% render 'w', x: big %}", "{% render 'w' with items %}", "{% render 'w' for items %}", "{% render 'w' for items as it %}",
+    "{% render 'w' for one %}", "{% render 'w' for 'str' %}", "{% include 'w' %}", "{% include 'w' for items %}", "{% include 'w' with items %}",
+    "{% render 'ww' %}", "{% render 'ww' for items %}", "{% for i in items %}{% render 'w' %}{% endfor %}", "{% for i in items %}{% include 'w' %}{% endfor %}",
+    "{% tablerow i in items %}{% render 'w' for items %}{% endtablerow %}", "{% capture c %}{% render 'w' for items %}{% endcapture %}",
+    "{% if true %}{% render 'w' for items %}{% endif %}", "{% liquid\nrender 'w' for items\n%}",
+]
+ENTRY_PARTIALS = {
+    "w": "{% assign wv = 'WWWWWWWWWWWWWWWWWWWWWWWWWWWWWWWW' %}{% capture wc %}漢漢漢漢漢漢漢漢{% endcapture %}.",
+    "ww": "{% assign v1 = 'ZZZZZZZZZZZZZZZZ' %}{% render 'w' for items %}{% render 'w' %}",
+}
+
+
+def entry_cases():
+    cfg = {"undefined": "default", "autoescape": False, "strict_filters": True, "extra": False, "flags": {}}
+    for entry in ENTRIES:
+        for parent in (0, 40, 400):
+            for tail in ("", "{% assign late = 'x' %}"):
+                pre = ("{% assign big = '" + "B" * parent + "' %}") if parent else ""
+                yield {"cfg": cfg, "src": pre + entry + tail, "partials": {}, "data": {"items": ["é", "b", "漢"], "one": ["x"]}, "extra_limits": []}
+
+
 def campaign(ctx: core.Ctx, tier: str, shard: int, nshards: int) -> None:
+    for i, case in enumerate(entry_cases()):
+        if i % nshards == shard:
+            ctx.run(case, enumerated=True)
     total = 1500 if tier == "quick" else 30000
     core.drive(cases(), ctx.run, n=max(1, total // nshards), seed=core.sub_seed(ctx.seed, shard))
 
